@@ -143,7 +143,7 @@ structure World where
   proc : Proc
 deriving DecidableEq, Repr
 
-def noProc : Proc := ⟨[], 0, 0, .killed, [], []⟩
+def noProc : Proc := ⟨[], 0, 1, .killed, [], []⟩
 
 def World.init (fmt : Fmt) (atomic : Bool) : World :=
   ⟨fmt, atomic, ⟨.absent, .absent⟩, 0, noProc⟩
